@@ -126,30 +126,38 @@ impl FeelIterator {
         let mut overflow = true;
         'inner: for (x, iteration_state) in self.iteration_states.iter_mut().enumerate() {
           if overflow {
+            // the next value of the index, there is none beyond the range of isize
+            let next_index = iteration_state.index.checked_add(iteration_state.step);
             if x == last_iteration_state_index {
-              if iteration_state.step > 0 && iteration_state.index + iteration_state.step > iteration_state.end {
+              if iteration_state.step > 0 && next_index.map_or(true, |next| next > iteration_state.end) {
                 break 'outer;
               }
-              if iteration_state.step < 0 && iteration_state.index + iteration_state.step < iteration_state.end {
+              if iteration_state.step < 0 && next_index.map_or(true, |next| next < iteration_state.end) {
                 break 'outer;
               }
             }
             if iteration_state.step > 0 {
-              if iteration_state.index + iteration_state.step <= iteration_state.end {
-                iteration_state.index += iteration_state.step;
-                overflow = false;
-              } else {
-                iteration_state.index = iteration_state.start;
-                overflow = true;
+              match next_index {
+                Some(next) if next <= iteration_state.end => {
+                  iteration_state.index = next;
+                  overflow = false;
+                }
+                _ => {
+                  iteration_state.index = iteration_state.start;
+                  overflow = true;
+                }
               }
             }
             if iteration_state.step < 0 {
-              if iteration_state.index + iteration_state.step >= iteration_state.end {
-                iteration_state.index += iteration_state.step;
-                overflow = false;
-              } else {
-                iteration_state.index = iteration_state.start;
-                overflow = true;
+              match next_index {
+                Some(next) if next >= iteration_state.end => {
+                  iteration_state.index = next;
+                  overflow = false;
+                }
+                _ => {
+                  iteration_state.index = iteration_state.start;
+                  overflow = true;
+                }
               }
             }
             if iteration_state.step == 0 {
